@@ -407,3 +407,9 @@ class Check:
             f"wall={ev['wall_s']}s -> exit {rc}"
         )
         return rc
+
+
+def gen_params():
+    """the timing constants the translator regenerated from /repo (coq/Gen/Params.v), in microseconds"""
+    txt = open(os.path.join(COQ, "Gen", "Params.v"), encoding="utf-8").read()
+    return {m.group(1): int(m.group(2)) for m in re.finditer(r"Definition (p_\w+) : Z := (-?\d+)\.", txt)}
